@@ -151,7 +151,7 @@ def run_check(mod, tier, seed, budget=None, selftest=False):
     if live_names and not os.environ.get('VERIF_SKIP_CONFORMANCE'):
         import subprocess
         live = subprocess.Popen([sys.executable, os.path.join(R.VERIF, 'vt', 'livereplay.py')] + list(live_names),
-                                stdout=subprocess.PIPE, stderr=subprocess.DEVNULL,
+                                stdout=subprocess.PIPE, stderr=subprocess.PIPE,
                                 env=dict(os.environ, PYTHONPATH=R.VERIF, PYTHONHASHSEED='0'), cwd='/')
     if uses_kernel and not os.environ.get('VERIF_SKIP_CONFORMANCE'):
         import subprocess
@@ -233,8 +233,11 @@ def run_check(mod, tier, seed, budget=None, selftest=False):
                          % json.dumps(cres.get('mismatches'))[:600])
     if live is not None:
         try:
-            out, err = live.communicate(timeout=600)
+            out, err = live.communicate(timeout=900)
             lres = json.loads(out.decode() or '{}')
+            if not lres:
+                lres = {'histories': 0, 'mismatches': [{'error': 'live replay process produced no result',
+                                                        'stderr': err.decode('utf8', 'replace')[-1500:]}]}
         except Exception as e:
             live.kill()
             lres = {'histories': 0, 'mismatches': [{'error': repr(e)}]}
